@@ -87,6 +87,16 @@ def far_case(draw):
     return {"nq": nq, "gates": gates, "aps": draw(st.booleans())}
 
 
+def far_fixed_cases(full):
+    """every ordered qubit pair 3 or 4 apart on 5 qubits (routing swaps on both sides of the gate)"""
+    pairs = [(0, 4), (4, 0), (0, 3), (1, 4), (3, 0), (4, 1)]
+    for a, b in pairs:
+        for g in (("cx", "cz") if full else ("cx",)):
+            for aps in ((True, False) if full else (True,)):
+                yield {"nq": 5, "gates": [["h", [a], []], ["t", [b], []], [g, [a, b], []], ["sx", [2], []]],
+                       "aps": aps}
+
+
 def build_qiskit(case):
     from qiskit import QuantumCircuit
     qc = QuantumCircuit(case["nq"])
@@ -203,6 +213,7 @@ def subs(tier):
     q = tier == "quick"
     return [
         Sub("convert", run_convert, strategy=qc_case(), examples=35 if q else 1500),
-        Sub("far-apart-qubits", run_convert, strategy=far_case(), examples=2 if q else 40),
+        Sub("far-apart-all-pairs", run_convert, cases=lambda: far_fixed_cases(full=not q), exhaustive=True),
+        Sub("far-apart-qubits", run_convert, strategy=far_case(), examples=1 if q else 40),
         Sub("convert-forced-patterns", run_convert, strategy=qc_case(forced=True), examples=20 if q else 900),
     ]
